@@ -77,6 +77,65 @@ Fixpoint effs_ok (k : nat) (l : list tr) : bool :=
   | e :: r => (t_eff e <=? k)%nat && (Nat.eqb (length (t_mask e)) n) && effs_ok (S k) r
   end.
 
+(* ---- whole-history tie: the loop the theorems are about (Clip.iter_fit), instantiated with the exact model
+   fit of the retained points and the exact cut-off test, predicts the implementation's complete history.
+   Applied when the statistic is rational (rmse, std), the family has a rational optimum (shift, rscale, general)
+   and no decision along the model's own history falls into the tolerance band. ---- *)
+Definition model_fit (m : list bool) : option (fitp * Q) :=
+  let pp := filt m (k_p c) in
+  let wx := option_map (filt m) (k_wxy c) in let wu := option_map (filt m) (k_wuv c) in
+  let out := match k_g c with
+             | GRshift => OutErr ESingular
+             | GRscale => match check_in GRscale pp (comb wx wu) with
+                          | Some e => OutErr e
+                          | None => fit_rscale_out (mkpts pp (comb wx wu))
+                          end
+             | g => match fit_single g pp wx wu with inl o => o | inr _ => OutErr ESingular end
+             end in
+  match out with
+  | OutAffine a b cc d e g =>
+      let f := {| f00 := a; f01 := b; f10_ := cc; f11_ := d; fs0 := e; fs1 := g |} in
+      let s2 := fst (stat2_encl (k_st c) weighted f (filt m (combine (k_p c) w))) in
+      Some (f, Qred (k_nsig c * k_nsig c * s2))
+  | OutErr _ => None
+  end.
+Definition model_below (r : option (fitp * Q)) (i : nat) : bool :=
+  match r, nth_error (k_p c) i with
+  | Some (f, c2), Some p => Qltb (r2 f p) c2
+  | _, _ => false
+  end.
+(* is some tested point of state (m, r) inside the tolerance band? *)
+Definition model_tight (m : list bool) (r : option (fitp * Q)) : bool :=
+  match r with
+  | None => true
+  | Some (f, c2) =>
+      let bm := below_masks f (c2, c2) rel20 eps2 (k_p c) in
+      let tested := if k_accum c then m else wm in
+      negb (meqb (mand tested (fst bm)) (mand tested (snd bm)))
+  end.
+Definition rational_case : bool :=
+  match k_st c, k_g c with
+  | SMae, _ => false
+  | _, GRshift => false
+  | _, _ => negb (k_exact c)
+  end.
+(* state after nclip = k+1 from the state after nclip = k: one more round of the SAME loop
+   (Clip.loop_prefix / ClipTie.iter_fit_succ: iter_fit (S k) = clip_loop 1 (iter_fit k) unless nclip is reset) *)
+Definition next_state (s : cstate (option (fitp * Q))) : cstate (option (fitp * Q)) :=
+  if Nat.eqb (count wm) minobj then s
+  else clip_loop n (option (fitp * Q)) model_fit model_below minobj wm (k_accum c) 1 s.
+Fixpoint hist_ok (s : cstate (option (fitp * Q))) (l : list tr) : bool :=
+  match l with
+  | [] => true
+  | e :: r =>
+      if model_tight (cm _ s) (cf _ s) then true     (* a decision too close to call: stop comparing *)
+      else meqb (cm _ s) (t_mask e) && Nat.eqb (ceff _ s) (t_eff e) && hist_ok (next_state s) r
+  end.
+Definition full_history_ok : bool :=
+  if rational_case
+  then hist_ok (iter_fit n (option (fitp * Q)) model_fit model_below minobj wm (k_accum c) 0) (k_trace c)
+  else true.
+
 Definition agree07 : bool :=
   match k_trace c with
   | [] => false
@@ -86,12 +145,13 @@ Definition agree07 : bool :=
       forallb fit_ok (k_trace c) && forallb stats_ok (k_trace c) &&
       (if Nat.eqb (count wm) minobj
        then forallb (fun e => meqb (t_mask e) wm && Nat.eqb (t_eff e) 0) (k_trace c)
-       else steps_ok 0 (k_trace c))
+       else steps_ok 0 (k_trace c)) &&
+      full_history_ok
   end.
 
 (* diagnostics for a failing case: which component fails, and the model's step verdicts *)
 Definition show07 :=
-  (map fit_ok (k_trace c), map stats_ok (k_trace c),
+  (full_history_ok, map fit_ok (k_trace c), map stats_ok (k_trace c),
    (fix go (k : nat) (l : list tr) :=
       match l with
       | e :: ((e' :: _) as r) =>
